@@ -74,3 +74,27 @@ Print Assumptions C07_raises_or_reproduces.
 Print Assumptions C07_exec_PA_eq_LU.
 Print Assumptions C07_exec_two_output.
 Print Assumptions C07_exec_multipliers_at_most_one.
+
+(* why a zero pivot is reported: an upper-triangular factor with a zero diagonal entry makes A singular (over the real quaternions) *)
+From Coq Require Import Reals.
+From QV Require Import CRingR.
+From QVT Require Import Kernel SingularU.
+Theorem C07_zero_diagonal_gives_null_vector : forall n (U : qmat RR) k,
+  (forall i j, (i < n)%nat -> (j < i)%nat -> U i j = qzero) -> (k < n)%nat -> U k k = qzero ->
+  exists z : nat -> quat RR, (exists j, (j < n)%nat /\ z j <> qzero) /\
+    forall r, (r < n)%nat -> sumQ n (fun j => qmul (U r j) (z j)) = qzero.
+Proof. exact zero_diagonal_gives_null_vector. Qed.
+Theorem C07_zero_pivot_means_singular : forall n (A L U : qmat RR) (IP : nat -> nat) k,
+  (forall i, (i < n)%nat -> (IP i < n)%nat) -> (forall i i', (i < n)%nat -> (i' < n)%nat -> IP i = IP i' -> i = i') ->
+  (forall i c, (i < n)%nat -> (c < n)%nat -> A (IP i) c = qmm n L U i c) ->
+  (forall i j, (i < n)%nat -> (j < i)%nat -> U i j = qzero) -> (k < n)%nat -> U k k = qzero ->
+  exists z : nat -> quat RR, (exists j, (j < n)%nat /\ z j <> qzero) /\
+    forall r, (r < n)%nat -> sumQ n (fun c => qmul (A r c) (z c)) = qzero.
+Proof. exact zero_pivot_means_singular. Qed.
+(* non-vacuity: the 2 x 2 matrix with rows (1 1), (0 0) is upper triangular with a zero second pivot *)
+Example C07_zero_pivot_hypotheses_met :
+  let U : qmat RR := fun i j => if Nat.eqb i 0 then qone else qzero in
+  (forall i j, (i < 2)%nat -> (j < i)%nat -> U i j = qzero) /\ (1 < 2)%nat /\ U 1%nat 1%nat = qzero.
+Proof. cbv zeta. split; [|split; [lia|reflexivity]]. intros i j Hi Hj. destruct i as [|i]; [lia|reflexivity]. Qed.
+Print Assumptions C07_zero_diagonal_gives_null_vector.
+Print Assumptions C07_zero_pivot_means_singular.
